@@ -1397,13 +1397,11 @@ private:
           }
           else if (isPlausibleEpochMs(expiryMs))
           {
-            const auto exp = fromEpochMs(expiryMs);
-            if (exp > now)
-            {
-              _kv[key] = std::move(value);
-              _expiry[key] = ExpiryEntry{exp, core::InvalidTimerId};
-            }
-            // else: already expired at load — drop the entry entirely.
+            // Kept even if already past: a later 'X' log record (expireAt/persist,
+            // written while the key was still alive) may extend or clear this expiry.
+            // Entries that are still expired after replay are dropped at the end.
+            _kv[key] = std::move(value);
+            _expiry[key] = ExpiryEntry{fromEpochMs(expiryMs), core::InvalidTimerId};
           }
           // else: implausible (corrupt) expiry — drop the entry, mirroring the
           // 'E' log op's sanity-bound rejection (KTP-11). NOT kept as eternal.
@@ -1419,7 +1417,10 @@ private:
     // Load log with enhanced error handling and corruption detection
     std::ifstream log(_logPath, std::ios::binary);
     if (!log.is_open())
+    {
+      dropExpiredAfterLoad(now);
       return; // No log file yet
+    }
 
     // Offset of the first byte replay could not frame (a record cut short by a crash,
     // or garbage). Everything from there on is unreadable — replay always stops at it —
@@ -1543,17 +1544,11 @@ private:
         {
           std::memcpy(value.data(), ptr, valLen);
         }
-        const auto exp = fromEpochMs(expiryMs);
-        if (exp > now)
-        {
-          _kv[key] = std::move(value);
-          _expiry[key] = ExpiryEntry{exp, core::InvalidTimerId};
-        }
-        else
-        {
-          _kv.erase(key); // already expired → drop
-          _expiry.erase(key);
-        }
+        // Replay reconstructs the last written state first (see the sweep after the
+        // loop): dropping an already-expired 'E' entry here would orphan a later 'X'
+        // record that extended or cleared its expiry while the key was alive.
+        _kv[key] = std::move(value);
+        _expiry[key] = ExpiryEntry{fromEpochMs(expiryMs), core::InvalidTimerId};
       }
       else if (op == 'X')
       {
@@ -1573,16 +1568,7 @@ private:
         }
         else if (isPlausibleEpochMs(expiryMs))
         {
-          const auto exp = fromEpochMs(expiryMs);
-          if (exp > now)
-          {
-            _expiry[key] = ExpiryEntry{exp, core::InvalidTimerId};
-          }
-          else
-          {
-            _kv.erase(key); // expiry already past → drop the key
-            _expiry.erase(key);
-          }
+          _expiry[key] = ExpiryEntry{fromEpochMs(expiryMs), core::InvalidTimerId};
         }
         // implausible expiry → ignore
       }
@@ -1593,6 +1579,8 @@ private:
       }
     }
 
+    dropExpiredAfterLoad(now);
+
     if (tornAt >= 0)
     {
       log.close();
@@ -1601,6 +1589,24 @@ private:
       if (ec)
       {
         throw KVStoreException("Failed to truncate torn log tail: " + ec.message());
+      }
+    }
+  }
+
+  /// \brief Final step of load(): remove every key whose (replayed) expiry is not in
+  /// the future. Done once, after the whole snapshot + log have been applied.
+  void dropExpiredAfterLoad(std::chrono::system_clock::time_point now)
+  {
+    for (auto it = _expiry.begin(); it != _expiry.end();)
+    {
+      if (it->second.expiry <= now)
+      {
+        _kv.erase(it->first);
+        it = _expiry.erase(it);
+      }
+      else
+      {
+        ++it;
       }
     }
   }
